@@ -7,7 +7,7 @@
    Not bridged: that the usages the rule enumerates (VariablesCollector over
    the whole document, fragments included) are the occurrences [var_at]
    describes, and the translation between the two schema representations. *)
-From PyGql Require Import Spec.CoerceSpec.
+From PyGql Require Import Spec.CoerceSpec Proofs.CoerceAgreeCheck.
 From PyGql Require Valid.ValidRules.
 
 Module V := PyGql.Valid.ValidSchema.
@@ -29,14 +29,6 @@ Fixpoint wf_tref (t : V.tref) : bool :=
   | V.RList t' => wf_tref t'
   | V.RNonNull t' => bare t' && wf_tref t'
   end.
-
-Lemma tref_eqb_eq a : forall b, V.tref_eqb a b = true -> a = b.
-Proof.
-  induction a; intros [ | | ] H; simpl in H; try discriminate.
-  - apply str_eqb_eq in H. congruence.
-  - f_equal; auto.
-  - f_equal; auto.
-Qed.
 
 Lemma sub_refl t : sub t t.
 Proof. induction t; simpl; auto. Qed.
@@ -142,40 +134,6 @@ Module VV := PyGql.Spec.ValidValueSpec.
 Module VT := PyGql.Spec.ValidTypedSpec.
 Module VP := PyGql.Proofs.ValidVarProofs.
 Module C06 := PyGql.Properties.C06.
-
-(* ---- the input-type fragment of a CoerceModel schema as a ValidSchema ---- *)
-Definition sk_of (k : scalar_kind) : V.scalar_kind :=
-  match k with
-  | KInt => V.SkInt | KFloat => V.SkFloat | KString => V.SkString
-  | KID => V.SkID | KBoolean => V.SkBoolean | KAny | KTag | KOdd => V.SkCustom
-  end.
-
-Fixpoint tref_of (t : ity) : V.tref :=
-  match t with
-  | INamed nn n => if nn then V.RNonNull (V.RNamed n) else V.RNamed n
-  | IList nn t' => if nn then V.RNonNull (V.RList (tref_of t')) else V.RList (tref_of t')
-  end.
-
-Definition sarg_of (f : ifield) : V.sarg :=
-  V.SArg (f_name f) (tref_of (f_ty f)) (match f_default f with Some _ => true | None => false end).
-
-Definition tdef_of (d : tdef) : V.tdef :=
-  match d with
-  | TDScalar k => V.TScalar (sk_of k)
-  | TDEnum vals => V.TEnum (map fst vals)
-  | TDInput fs => V.TInput (map sarg_of fs)
-  | TDOutput => V.TObject [] []
-  end.
-
-(* total translation; [outs] / roots / directives are whatever the request's
-   schema has besides the input types (object types, Query, ...) *)
-Definition valid_schema_of (s : schema) (outs : list (str * V.tdef))
-           (q m sb : option str) (dirs : list (str * V.sdir)) : V.schema :=
-  V.Schema (map (fun p => (fst p, tdef_of (snd p))) s ++ outs) q m sb dirs.
-
-(* the two schema models describe the same input types *)
-Definition schema_agree (s : schema) (s' : V.schema) : Prop :=
-  forall n d, alookup n s = Some d -> d <> TDOutput -> V.lookup_type s' n = Some (tdef_of d).
 
 Lemma alookup_map_app {A B} (g : A -> B) (l : list (str * A)) (r : list (str * B)) n d :
   alookup n l = Some d -> alookup n (map (fun p => (fst p, g (snd p))) l ++ r) = Some (g d).
@@ -582,4 +540,34 @@ Proof.
     destruct na, nb; cbn [tref_of]; try exact HL;
       try (specialize (Hn eq_refl); discriminate);
       rewrite is_subtype_unfold; cbn [V.tref_eqb]; try destruct (V.tref_eqb _ _); auto.
+Qed.
+
+(* ====================================================================== *)
+(* Part 3: the remaining assumptions as decidable checks                   *)
+(* The correspondence run evaluates them on the two serialisations of the *)
+(* same real py_gql schema (harness/gen_coerce.py cschema, harness/       *)
+(* ser_valid.py cschema): the validated-request theorems below have only  *)
+(* boolean, harness-checked premises about the schema and the arguments.  *)
+From PyGql Require Import Proofs.CoerceCheck.
+
+(* the validated request, with boolean premises on the C07 side *)
+Theorem validated_request_sound_checked fuel s s' d op p a n args dirs sl sb l defs raw kw :
+  (* checked by the correspondence run on every generated request: *)
+  schema_okb s = true -> args_okb s defs = true ->
+  schema_agreeb s s' = true -> field_args_agreeb s' p (n_val n) defs = true ->
+  (* the validation side (C06 model): *)
+  VV.wf_inputs s' -> VT.wf_arg_types s' -> VT.wf_var_types s' d ->
+  VO.validate_rules fuel s' d VO.rules_but_overlap = Ok [] ->
+  In op (doc_defs d) -> VS.is_operation op ->
+  node_in_operation s' d op p (SField a n args dirs sl sb l) ->
+  exec_kwargs s defs (VL.op_vars op) args raw = Ok kw ->
+  NoDup (map fst kw)
+  /\ forall k v, In (k, v) kw -> exists d0, In d0 defs /\ f_py d0 = k /\ conforms s (f_ty d0) v.
+Proof.
+  intros Hs Hd Hag Hfa Hwi Hwa Hwv Hval Hop Hisop Hnode Hex.
+  destruct (schema_okb_sound s Hs) as (Hwf & Hc & Hi & Hu).
+  destruct (args_okb_sound s defs Hd) as (Hawf & Hus & Hnd & _).
+  destruct (field_args_agreeb_sound s' p (n_val n) defs Hfa) as (f & Hf & Hargs).
+  eapply (validated25_request_sound fuel s s'); eauto using schema_agreeb_sound.
+  intros d0 Hd0. apply (proj1 (Hus d0 Hd0)).
 Qed.
